@@ -89,9 +89,36 @@ def guard_atoms(body, bb):
     `it.filter(p).for_each(f)` have the same guards)."""
     out = _guard_atoms_local(body, bb)
     try:
-        out = out + _iterator_guards(body)
+        out = out + _iterator_guards(body) + _find_guards(body, out)
     except Exception:
         pass
+    return out
+
+
+ITER_FIND = ("std::iter::Iterator::find", "std::iter::Iterator::position", "std::iter::Iterator::rposition")
+
+
+def _find_guards(body, atoms):
+    """`if let Some(x) = it.find(p)` (or position): on the Some edge the found element satisfies p, so p's true-conditions hold
+    (`for x in it { if p(x) { ..; break } }` and `if let Some(x) = it.find(p) { .. }` are judged alike)."""
+    prog = getattr(body.fn, "prog", None)
+    if prog is None:
+        return []
+    out = []
+    for (e, pol, val, sb) in atoms:
+        if e[0] != "discr":
+            continue
+        c = strip(e[1])
+        if c[0] != "call" or c[1] not in ITER_FIND or len(c[2]) < 2:
+            continue
+        names = dict((v, n) for (v, n) in (e[3] or []))
+        is_some = (names.get(val) == "Some") if not isinstance(val, tuple) else (val[0] == "not" and [names.get(x) for x in val[1]] == ["None"])
+        if not is_some:
+            continue
+        fa = strip(c[2][1])
+        if fa[0] == "agg" and isinstance(fa[1], str) and fa[1] in prog.fns:
+            for (ce, cpol) in true_conditions(prog, fa[1]):
+                out.append((ce, cpol, 1 if cpol else 0, sb))
     return out
 
 
@@ -167,7 +194,7 @@ def true_conditions(prog, fn_key):
     return out
 
 
-def _guard_atoms_local(body, bb):
+def _guard_atoms_local(body, bb, depth=0):
     out = []
     for (sb, e, val) in Guards(body).controlling(bb):
         pol = None
@@ -184,6 +211,42 @@ def _guard_atoms_local(body, bb):
             e = e[2]
             pol = not pol
         out.append((e, pol, val, sb))
+        if e[0] == "phi" and pol is not None and depth < 2 and body.locals[e[1]]["ty"] == "bool":
+            out += _phi_implied(body, e[1], pol, depth)
+    return out
+
+
+def _phi_implied(body, l, truth, depth):
+    """A bool flag assembled on several paths (`let w = match x { Some(y) => p(y), None => false }`) is known to be `truth`:
+    if all but one of its definitions assign the opposite constant, the remaining definition's value is `truth` and the
+    guards of that definition hold."""
+    live = []
+    for d in body.defs().get(l, []):
+        if body.blocks[d[1]]["cleanup"]:
+            continue
+        if d[0] == "stmt" and d[3]["k"] == "=":
+            e = body.expr_of_rvalue(d[3]["rv"])
+            if e[0] == "const" and "int" in e[1]:
+                if bool(e[1]["int"]) != truth:
+                    continue
+                live.append((d[1], None))
+            else:
+                live.append((d[1], e))
+        elif d[0] == "call":
+            t = d[2]
+            live.append((d[1], ("call", callee_path(t), [body.expr_of_operand(a) for a in t["args"]], d[1])))
+        else:
+            return []
+    if len(live) != 1:
+        return []
+    b, e = live[0]
+    out = list(_guard_atoms_local(body, b, depth + 1))
+    if e is not None:
+        pol = truth
+        while e[0] == "unop" and e[1] == "Not":
+            e = e[2]
+            pol = not pol
+        out.append((e, pol, 1 if pol else 0, b))
     return out
 
 
@@ -914,3 +977,16 @@ def is_reinit_write(prog, w, adt, field, ctor_fn):
         cons = prog.borrow_consumer(w["fn"], w["bb"], w["idx"])
         return bool(cons) and cons[2] == 0 and is_std_collection_call(callee_path(cons[1]), "clear") and "::new(" in want
     return False
+
+
+def expanded_guard_atoms(prog, fn_key, bb):
+    """guard_atoms of a block plus, for every guard that is a call of a local bool predicate known to be true there, the atoms
+    that hold whenever that predicate returns true (`if s.might_spur()` contributes `s.spurious` and `!s.did_spur`): a rule
+    stated on the fields is then indifferent to whether the predicate is a helper or written in place."""
+    body = prog.fns[fn_key].body
+    out = [(deep(prog, fn_key, e), pol) for (e, pol, v, sb) in guard_atoms(body, bb) if pol is not None]
+    extra = []
+    for (e, pol) in out:
+        if pol is True and e[0] == "call" and e[1] in prog.fns and prog.fns[e[1]].body.locals[0]["ty"] == "bool":
+            extra += true_conditions(prog, e[1])
+    return out + extra
